@@ -373,6 +373,71 @@ func jwsReplay(args []string) {
 					return
 				}
 
+				// the same signature with the payload handed over separately (detached): verifies, and every
+				// malformed split of the compact form is still refused
+				{
+					gp := strings.Split(good, ".")
+					detached := gp[0] + ".." + gp[2]
+
+					if dp, derr := jwsutil.VerifyJWS(detached, key.JWK, jwsutil.WithJWSDetachedPayload(payload)); derr != nil || !bytes.Equal(dp.Payload, payload) {
+						fail("matching-key-does-not-verify", "detached payload: "+fmt.Sprint(derr), "verifies", nil, detached)
+						return
+					}
+
+					for _, bad := range []string{gp[0] + "." + gp[1] + "." + gp[1] + "." + gp[2], gp[0] + "..." + gp[2], gp[0] + ".a.b.c." + gp[2],
+						gp[0] + "." + gp[2], gp[0] + ".." + gp[2] + ".", "." + gp[0] + ".." + gp[2]} {
+						if _, derr := jwsutil.VerifyJWS(bad, key.JWK, jwsutil.WithJWSDetachedPayload(payload)); derr == nil {
+							fail("verify-verdict", "malformed compact form accepted with a detached payload", map[string]interface{}{"verifies": false},
+								map[string]interface{}{"verifies": true}, bad)
+							return
+						}
+					}
+				}
+
+				// two signatures made with ONE signer object: the first is still the first afterwards
+				if pi == 0 {
+					signer := librarySigner(key)
+					hdr := jws.Headers{"alg": key.Alg}
+
+					j1, e1 := jwsutil.NewJWS(hdr, nil, payload, signer)
+					j2, e2 := jwsutil.NewJWS(hdr, nil, append([]byte("another payload: "), payload...), signer)
+
+					if e1 != nil || e2 != nil {
+						fail("sign-error", fmt.Sprint(e1, e2), nil, nil, nil)
+						return
+					}
+
+					s1, _ := j1.SerializeCompact(false)
+					s2, _ := j2.SerializeCompact(false)
+
+					if p1, verr := jwsutil.VerifyJWS(s1, key.JWK); verr != nil || !bytes.Equal(p1.Payload, payload) {
+						fail("matching-key-does-not-verify", "the first of two JWS made with one signer: "+fmt.Sprint(verr), "verifies", nil, s1)
+						return
+					}
+
+					if _, verr := jwsutil.VerifyJWS(s2, key.JWK); verr != nil {
+						fail("matching-key-does-not-verify", "the second of two JWS made with one signer: "+fmt.Sprint(verr), "verifies", nil, s2)
+						return
+					}
+
+					// a key whose coordinate starts with a zero byte signs and verifies like any other
+					if key.KT != "ed" {
+						rk := pool.Get(key.KT, "rare:jws-signer")
+
+						rs, rerr := signutil.SignPayload(payload, librarySigner(rk))
+						if rerr != nil {
+							fail("sign-error", rerr.Error(), nil, nil, nil)
+							return
+						}
+
+						if rp, verr := jwsutil.VerifyJWS(rs, rk.JWK); verr != nil || !bytes.Equal(rp.Payload, payload) {
+							fail("matching-key-does-not-verify", "key with a leading zero byte in a coordinate: "+fmt.Sprint(verr), "verifies", nil,
+								map[string]interface{}{"jws": rs, "key": rk.JWK})
+							return
+						}
+					}
+				}
+
 				for _, tm := range tamperings(pool, key, good, c.Tamper) {
 					instances++
 
